@@ -307,14 +307,108 @@ theorem writeChar_keep (c : Ctx) (s : Str) (q allowText : Bool) (out : Str) (c' 
 
 /-! ### the content read back -/
 
+/-- the writer's own test for writing an unquoted string as it is, whitespace-delimited (`cif_analyze_string` recommends no
+    delimiter): the CIF 2.0 rules admit it in that form at any position — non-empty, no blank, bracket or brace, first character
+    none of `' " # $ _ ;`, not `?` / `.`, not a reserved word (`unquotedOk`) — it is one line, and that line is within the limit.
+    An unquoted string the API can produce (`cif_value_set_quoted`) fails this test only by beginning with `;` or by being longer
+    than a line: `bareWritable_iff`. -/
+def bareWritable (t : Str) : Prop :=
+  Model.unquotedOk t true = true ∧ (Model.counters t).numLines = 1 ∧ (Model.counters t).maxLine ≤ LINE
+
+theorem bareWritable_recommend (t : Str) (tri : Bool) (h : bareWritable t) : recommend t true tri LINE = .none := by
+  obtain ⟨hu, h1, hm⟩ := h
+  simp [recommend, chooseDelim, hm, h1, hu]
+
+/-- what `cif_value_set_quoted(value, 0)` accepts of a string: non-empty, not `?` / `.`, not a reserved form, no blank, line
+    terminator, bracket or brace -/
+def apiUnquoted (t : Str) : Prop := t ≠ [] ∧ t ≠ [63] ∧ t ≠ [46] ∧ isReserved t = false ∧ noDisallowed t = true
+
+theorem apiUnquoted_setQuoted (t : Str) : apiUnquoted t ↔ setQuoted false (.chr true t) false = .ok (.chr false t) := by
+  unfold apiUnquoted setQuoted
+  constructor
+  · rintro ⟨h1, h2, h3, h4, h5⟩
+    simp [h1, h2, h3, h4, h5]
+  · intro h
+    simp only [Bool.false_eq_true, or_self, if_false] at h
+    by_cases h1 : t = []
+    · simp [h1] at h
+    by_cases h2 : t = [63]
+    · simp [h2] at h
+    by_cases h3 : t = [46]
+    · simp [h3] at h
+    cases h4 : isReserved t
+    · cases h5 : noDisallowed t
+      · simp [h1, h2, h3, h4, h5] at h
+      · exact ⟨h1, h2, h3, rfl, rfl⟩
+    · simp [h1, h2, h3, h4] at h
+
+/-- among the unquoted strings the API can produce, the writer's test fails exactly for those beginning with `;` and those longer
+    than a line -/
+theorem bareWritable_iff (t : Str) (h : apiUnquoted t) : bareWritable t ↔ (t.head? ≠ some 59 ∧ t.length ≤ LINE) := by
+  obtain ⟨hne, h63, h46, hres, hnd⟩ := h
+  simp only [noDisallowed, List.all_eq_true, Bool.not_eq_true', Bool.or_eq_false_iff, beq_eq_false_iff_ne, ne_eq] at hnd
+  have hno : ∀ c ∈ t, c ≠ 10 ∧ c ≠ 13 := fun c hc => ⟨(hnd c hc).1.2, (hnd c hc).2⟩
+  have hsplit := Lemmas.Analyze.splitLines_single t hno
+  have hst := C18_stats_exact t true true LINE
+  have hnl : (counters t).numLines = 1 := by
+    have := hst.2.1
+    rw [hsplit] at this
+    exact this
+  have hml : (counters t).maxLine = t.length := by
+    have h5 : (counters t).maxLine = Spec.maxLen (Spec.splitLines t) := hst.2.2.2.2.1
+    rw [h5, hsplit]
+    simp [Spec.maxLen]
+  have hcnt : ∀ x, (x = 32 ∨ x = 9 ∨ x = 91 ∨ x = 93 ∨ x = 123 ∨ x = 125) → cnt t x = 0 := by
+    intro x hx
+    rw [Lemmas.Analyze.cnt_zero]
+    intro hm
+    have := hnd x hm
+    rcases hx with h | h | h | h | h | h <;> subst h <;> simp at this
+  cases t with
+  | nil => exact absurd rfl hne
+  | cons c r =>
+    have hlead : c ≠ 95 ∧ c ≠ 35 ∧ c ≠ 36 ∧ c ≠ 39 ∧ c ≠ 34 := by
+      simp only [isReserved, unitAt, List.getD_cons_zero] at hres
+      split at hres
+      · cases hres
+      · rename_i hh
+        simp only [not_or] at hh
+        exact hh
+    have hone : r = [] → c ≠ 63 ∧ c ≠ 46 := by
+      intro hr; subst hr
+      exact ⟨fun e => h63 (by rw [e]), fun e => h46 (by rw [e])⟩
+    unfold bareWritable
+    rw [hnl, hml]
+    constructor
+    · rintro ⟨hu, _, hm⟩
+      refine ⟨?_, hm⟩
+      intro e
+      simp only [List.head?_cons, Option.some.injEq] at e
+      subst e
+      simp [unquotedOk, unitAt] at hu
+    · rintro ⟨h59, hm⟩
+      have h59 : ¬ c = 59 := fun e => h59 (by rw [e]; rfl)
+      refine ⟨?_, rfl, hm⟩
+      have hq : r.length + 1 > 1 ∨ (c ≠ 63 ∧ c ≠ 46) := by
+        cases r with
+        | nil => exact Or.inr (hone rfl)
+        | cons _ _ => left; simp
+      simp only [unquotedOk, unitAt, List.getD_cons_zero, hres, hcnt 32 (by simp), hcnt 9 (by simp), hcnt 91 (by simp), hcnt 93 (by simp),
+        hcnt 123 (by simp), hcnt 125 (by simp), List.length_cons, Bool.true_and, Bool.not_false, Bool.and_true, Bool.and_eq_true,
+        decide_eq_true_eq, bne_iff_ne, ne_eq, Bool.or_eq_true, beq_self_eq_true, Nat.add_zero]
+      exact ⟨⟨⟨⟨⟨⟨⟨by omega, hlead.2.2.2.1⟩, hlead.2.2.2.2⟩, hlead.2.1⟩, hlead.2.2.1⟩, hlead.1⟩, h59⟩, hq⟩
+
 mutual
   /-- `backV v r`: the value `r` read back stands for the value `v` written — same kind (a number comes back as the string of its
-      digits, which the library interprets on demand), same text, same elements, same keys; a value that was quoted is quoted -/
+      digits, which the library interprets on demand), same text, same elements, same keys, same QUOTED STATUS: a value that was
+      quoted is quoted; an unquoted string is unquoted whenever the writer's test `bareWritable` admits the whitespace-delimited
+      form (the two exceptions: it begins with `;` — property C02's own exception — or it is longer than a line — known finding
+      F-unquoted-overlong); an unquoted number is unquoted whenever its text fits a line (same finding otherwise) -/
   def backV : V → V → Prop
     | .unk, r => r = .unk
     | .na, r => r = .na
-    | .chr q t, r => ∃ q', r = .chr q' t ∧ (q = true → q' = true)
-    | .numb q t _ _ _ _, r => ∃ q', r = .chr q' t ∧ (q = true → q' = true)
+    | .chr q t, r => ∃ q', r = .chr q' t ∧ (q = true → q' = true) ∧ (q = false → bareWritable t → q' = false)
+    | .numb q t _ _ _ _, r => ∃ q', r = .chr q' t ∧ (q = true → q' = true) ∧ (q = false → t.length ≤ LINE → q' = false)
     | .lst vs, r => ∃ rs, r = .lst rs ∧ backVs vs rs
     | .tbl es, r => ∃ rs, r = .tbl rs ∧ backEs es rs
   def backVs : List V → List V → Prop
@@ -396,17 +490,58 @@ theorem bare_wf (dia : Dialect) (s : Str) (unq tri : Bool) (hok : okUnits dia no
     simp [h1.2.2.1, h1.2.2.2.1, h1.2.2.2.2.1, h1.2.2.2.2.2]
   simp [Parser.wfBare, hne, h63, h46, noNul_of_not_mem s h0, hres, hnd', hhard, hbr]
 
+theorem recommend_none_noBracket (s : Str) (unq tri : Bool) (h0 : (0 : CU) ∉ s) (hr : recommend s unq tri LINE = .none) :
+    hasBracket s = false := by
+  obtain ⟨hnd, _⟩ := (C18_delim_admissible s unq tri LINE h0).1 hr
+  simp only [hasBracket, List.any_eq_false]
+  intro x hx
+  have h1 := hnd x hx
+  simp [h1.2.2.1, h1.2.2.2.1, h1.2.2.2.2.1, h1.2.2.2.2.2]
+
+/-- `C02_value_presented`, with the presentation tied to the analysis: the whitespace-delimited form is used exactly when
+    `cif_analyze_string` recommends it -/
+theorem value_presented_strong (c : Ctx) (s : Str) (q : Bool) (out : Str) (c' : Ctx)
+    (hok : okUnits (diaOf c) none s = true) (hcol : c.lastColumn ≤ LINE) (h : writeChar c s q true = .ok (out, c')) :
+    ∃ (wrap : Bool) (p : Presentation) (s' : Str),
+      out = wrapLf wrap ++ renderValue p s' ∧ admissible (diaOf c) p s' = true ∧ (p = .text → wrap = true)
+      ∧ (p ≠ .text → s' = s) ∧ (p = .text → Model.Decode.decodeText true true s' = s)
+      ∧ (p = .bare → q = false ∧ s.head? ≠ some 59 ∧ recommend s (!q) (!c.isCif1) LINE = .none)
+      ∧ (recommend s (!q) (!c.isCif1) LINE = .none → p = .bare) := by
+  by_cases hrec : recommend s (!q) (!c.isCif1) LINE = .none
+  · have hv : ¬(c.isCif1 = true ∧ validate11 s = false) := by
+      intro hv; rw [Lemmas.WriterChar.writeChar_invalid c s q true hv] at h; cases h
+    have hd0 : (analyze s (!q) (!c.isCif1) LINE).delimLength = 0 := by
+      rw [(Lemmas.WriterChar.analyze_delim s _ _ _).2, hrec]; rfl
+    rw [Lemmas.WriterChar.writeChar_delim0 c s q true hv hd0] at h
+    obtain ⟨hadm, hno, hne, h59, hmax⟩ := bare_admissible (diaOf c) s (!q) (!c.isCif1) LINE hok hrec
+    rw [hmax] at h
+    obtain ⟨c'', hout⟩ := writeUnquoted_out c s hne
+    rw [hout] at h
+    simp only [Except.ok.injEq, Prod.mk.injEq] at h
+    have hq : q = false := by
+      have := (C18_delim_permitted s (!q) (!c.isCif1) LINE).1 hrec
+      simpa using this
+    exact ⟨_, .bare, s, h.1.symm, hadm, (by intro e; cases e), fun _ => rfl, (by intro e; cases e), fun _ => ⟨hq, h59, hrec⟩, fun _ => rfl⟩
+  · obtain ⟨wrap, p, s', hout, hadm, htext, _, hs1, hs2, hbare⟩ := C02_value_presented c s q out c' hok hcol h
+    exact ⟨wrap, p, s', hout, hadm, htext, hs1, hs2, hbare, fun hr => absurd hr hrec⟩
+
 /-- `write_char` on a value, as chunks: optional line break, one value token; the token stands for the string -/
 theorem chr_chunks (o : Parser.Opts) (hun : o.unfold = true) (hpr : o.prem = true) (c : Ctx) (s : Str) (q : Bool) (out : Str) (c' : Ctx)
     (hd : o.dia = diaOf c) (hok : okUnits o.dia none s = true) (hcol : c.lastColumn ≤ LINE)
     (h : writeChar c s q true = .ok (out, c')) :
     c'.lastColumn ≤ LINE ∧ 0 < c'.lastColumn ∧ Keep c c' ∧
     ∃ val cs, out = renderChunks cs ∧ toks cs = valToks val ∧ Parser.wfVal o val = true
-      ∧ (∃ q', denoteVal o.dia o.normKey val = .chr q' s ∧ (q = true → q' = true))
+      ∧ (∃ q', denoteVal o.dia o.normKey val = .chr q' s ∧ (q = true → q' = true) ∧ (q = false → bareWritable s → q' = false))
       ∧ Mach o.dia (AS o.dia) cs (A o.dia c') := by
   have hok' := hok
   rw [hd] at hok'
-  obtain ⟨wrap, p, s', hout, hadm, htext, _, hs1, hs2, hbare⟩ := C02_value_presented c s q out c' hok' hcol h
+  obtain ⟨wrap, p, s', hout, hadm, htext, hs1, hs2, hbare, hisbare⟩ := value_presented_strong c s q out c' hok' hcol h
+  have hnotbare : p ≠ .bare → q = false → bareWritable s → False := by
+    intro hp hq hb
+    apply hp
+    apply hisbare
+    have := bareWritable_recommend s (!c.isCif1) hb
+    rw [hq]; exact this
   rw [← hd] at hadm
   have h0 := okUnits_noNUL _ s hok
   have h13 := okUnits_noCR _ s hok
@@ -442,7 +577,7 @@ theorem chr_chunks (o : Parser.Opts) (hun : o.unfold = true) (hpr : o.prem = tru
     simp [renderChunks, renderWs_wrapWs, Tk.chars, hout]
   by_cases hp : p = .text
   · subst hp
-    refine ⟨.enc s s', _, hrender, rfl, ?_, ⟨true, rfl, fun _ => rfl⟩, hmach⟩
+    refine ⟨.enc s s', _, hrender, rfl, ?_, ⟨true, rfl, fun _ => rfl, fun hq hb => (hnotbare (by intro e; cases e) hq hb).elim⟩, hmach⟩
     simp only [Parser.wfVal, hun, hpr, hs2 rfl, noNul_of_not_mem s h0, beq_self_eq_true, Bool.and_self]
   · have hs := hs1 hp
     subst hs
@@ -459,12 +594,14 @@ theorem chr_chunks (o : Parser.Opts) (hun : o.unfold = true) (hpr : o.prem = tru
       | tsquote => simp only [Parser.wfVal]; exact noNul_of_not_mem s' h0
       | tdquote => simp only [Parser.wfVal]; exact noNul_of_not_mem s' h0
     · cases p with
-      | bare => exact ⟨_, rfl, fun hq => by rw [(hbare rfl).1] at hq; cases hq⟩
+      | bare =>
+        refine ⟨_, rfl, fun hq => (by rw [(hbare rfl).1] at hq; cases hq), fun _ _ => ?_⟩
+        rw [recommend_none_noBracket s' _ _ h0 (hbare rfl).2.2]; simp
       | text => exact absurd rfl hp
-      | squote => exact ⟨true, rfl, fun _ => rfl⟩
-      | dquote => exact ⟨true, rfl, fun _ => rfl⟩
-      | tsquote => exact ⟨true, rfl, fun _ => rfl⟩
-      | tdquote => exact ⟨true, rfl, fun _ => rfl⟩
+      | squote => exact ⟨true, rfl, fun _ => rfl, fun hq hb => (hnotbare (by intro e; cases e) hq hb).elim⟩
+      | dquote => exact ⟨true, rfl, fun _ => rfl, fun hq hb => (hnotbare (by intro e; cases e) hq hb).elim⟩
+      | tsquote => exact ⟨true, rfl, fun _ => rfl, fun hq hb => (hnotbare (by intro e; cases e) hq hb).elim⟩
+      | tdquote => exact ⟨true, rfl, fun _ => rfl, fun hq hb => (hnotbare (by intro e; cases e) hq hb).elim⟩
 
 /-! ### literals, keys, numbers, the item head -/
 
@@ -559,7 +696,7 @@ theorem key_chunks (c : Ctx) (k : Str) (o1 o2 : Str) (c3 c4 : Ctx) (h2 : c.isCif
     line) it is a whitespace-delimited value of the grammar -/
 def numR (dia : Dialect) (q : Bool) (t : Str) : Prop :=
   okUnits dia none t = true ∧ numbOk t ∧
-    (q = false → t.length ≤ LINE → bareOk dia t = true ∧ Parser.wfBare dia t = true ∧ t.head? ≠ some 59)
+    (q = false → t.length ≤ LINE → bareOk dia t = true ∧ Parser.wfBare dia t = true ∧ t.head? ≠ some 59 ∧ hasBracket t = false)
 
 /-- `write_numb`, as chunks -/
 theorem numb_chunks (o : Parser.Opts) (hun : o.unfold = true) (hpr : o.prem = true) (c : Ctx) (t : Str) (q : Bool) (out : Str) (c' : Ctx)
@@ -567,7 +704,7 @@ theorem numb_chunks (o : Parser.Opts) (hun : o.unfold = true) (hpr : o.prem = tr
     (h : writeNumb c t q = .ok (out, c')) :
     c'.lastColumn ≤ LINE ∧ 0 < c'.lastColumn ∧ Keep c c' ∧
     ∃ val cs, out = renderChunks cs ∧ toks cs = valToks val ∧ Parser.wfVal o val = true
-      ∧ (∃ q', denoteVal o.dia o.normKey val = .chr q' t ∧ (q = true → q' = true))
+      ∧ (∃ q', denoteVal o.dia o.normKey val = .chr q' t ∧ (q = true → q' = true) ∧ (q = false → t.length ≤ LINE → q' = false))
       ∧ Mach o.dia (AS o.dia) cs (A o.dia c') := by
   obtain ⟨hok, hnum, hbare⟩ := hr
   have hl0 := lineOk_writeNumb c t q hnum hcol out c' h
@@ -575,15 +712,16 @@ theorem numb_chunks (o : Parser.Opts) (hun : o.unfold = true) (hpr : o.prem = tr
   cases q with
   | true =>
     simp only [if_true] at h
-    exact chr_chunks o hun hpr c t true out c' hd hok hcol h
+    obtain ⟨h1, h2, h3, val, cs, h4, h5, h6, ⟨q', h7, h7', _⟩, h8⟩ := chr_chunks o hun hpr c t true out c' hd hok hcol h
+    exact ⟨h1, h2, h3, val, cs, h4, h5, h6, ⟨q', h7, h7', fun h => (by cases h)⟩, h8⟩
   | false =>
     simp only [Bool.false_eq_true, if_false] at h
     by_cases hlong : t.length > LINE
     · rw [if_pos hlong] at h
       obtain ⟨h1, h2, h3, val, cs, h4, h5, h6, ⟨q', h7, _⟩, h8⟩ := chr_chunks o hun hpr c t false out c' hd hok hcol h
-      exact ⟨h1, h2, h3, val, cs, h4, h5, h6, ⟨q', h7, fun h => by cases h⟩, h8⟩
+      exact ⟨h1, h2, h3, val, cs, h4, h5, h6, ⟨q', h7, fun h => (by cases h), fun _ hle => (by omega)⟩, h8⟩
     · rw [if_neg hlong] at h
-      obtain ⟨hb1, hb2, hb3⟩ := hbare rfl (by omega)
+      obtain ⟨hb1, hb2, hb3, hb4⟩ := hbare rfl (by omega)
       have hne : t ≠ [] := by intro e; subst e; simp [bareOk] at hb1
       cases hu : writeULiteral c t none true with
       | none => rw [hu] at h; cases h
@@ -596,7 +734,8 @@ theorem numb_chunks (o : Parser.Opts) (hun : o.unfold = true) (hpr : o.prem = tr
         · injection h with h; injection h with e1 e2
           subst e1; subst e2
           obtain ⟨b, hout, hk, hpos⟩ := writeULiteral_out c t true _ hne hu
-          refine ⟨hl0.1, hpos, hk, .str t .bare, [.ws (wrapWs b), .tk (.val .bare t)], ?_, rfl, ?_, ⟨_, rfl, fun h => by cases h⟩, ?_⟩
+          refine ⟨hl0.1, hpos, hk, .str t .bare, [.ws (wrapWs b), .tk (.val .bare t)], ?_, rfl, ?_,
+            ⟨_, rfl, fun h => (by cases h), fun _ _ => (by rw [hb4]; simp)⟩, ?_⟩
           · simp only at hout
             simp [renderChunks, renderWs_wrapWs, Tk.chars, hout, renderValue]
           · simp only [Parser.wfVal]; exact hb2
